@@ -1,6 +1,7 @@
 /- Lemmas/C06Poly.lean — semantics of coefficient blocks in Mathlib's `MvPolynomial (Fin 6) K` and the kernel lemmas. -/
 import Mathlib.Algebra.MvPolynomial.PDeriv
 import Mathlib.Algebra.MvPolynomial.Eval
+import Mathlib.RingTheory.PowerSeries.Basic
 import Mathlib.Data.List.Perm.Basic
 import Mathlib.Algebra.BigOperators.Group.List.Basic
 import HitenModel.Lemmas.C06
@@ -766,5 +767,505 @@ theorem length_polyPoisson {D dp dq : Nat} (hD : D ≤ 63) (hd : dp + dq ≤ D) 
 
 end
 
+
+/-! ### graded polynomials (operations.py) -/
+
+section
+variable {K : Type} [CommSemiring K] [DecidableEq K]
+
+/-- a graded list with blocks of the right sizes for degrees `0..N` -/
+def WF (P : GPoly K) (N : Nat) : Prop := P.length = N + 1 ∧ ∀ d, d ≤ N → (P.getD d []).length = psi 6 d
+
+theorem anyNZ_false {b : List K} (h : anyNZ b = false) (i : Nat) : b.getD i 0 = 0 := by
+  unfold anyNZ at h
+  rw [List.any_eq_false] at h
+  by_cases hi : i < b.length
+  · have := h (b[i]) (List.getElem_mem hi)
+    rw [List.getD_eq_getElem _ _ hi]
+    simpa using this
+  · exact List.getD_eq_default _ _ (by omega)
+
+theorem toMv_of_anyNZ_false (clmo : List (List Nat)) (d : Nat) {b : List K} (h : anyNZ b = false) : toMv clmo d b = 0 := by
+  unfold toMv
+  apply Finset.sum_eq_zero
+  intro i _
+  rw [anyNZ_false h, monomial_zero]
+
+theorem WF_zeroList (N : Nat) : WF (polynomialZeroList N : GPoly K) N := by
+  constructor
+  · simp [polynomialZeroList]
+  · intro d hd
+    unfold polynomialZeroList
+    rw [List.getD_eq_getElem?_getD, List.getElem?_map, List.getElem?_range (by omega)]
+    simp
+
+theorem getD_zeroList (N d : Nat) (hd : d ≤ N) : (polynomialZeroList N : GPoly K).getD d [] = zeros (psi 6 d) := by
+  unfold polynomialZeroList
+  rw [List.getD_eq_getElem?_getD, List.getElem?_map, List.getElem?_range (by omega)]
+  rfl
+
+theorem getD_set_list {α : Type} (l : List α) (i j : Nat) (a z : α) (hi : i < l.length) :
+    (l.set i a).getD j z = if j = i then a else l.getD j z := by
+  rw [List.getD_eq_getElem?_getD, List.getElem?_set]
+  by_cases h : i = j
+  · subst h; simp [hi]
+  · rw [if_neg h, if_neg (Ne.symm h), List.getD_eq_getElem?_getD]
+
+/-- one `(d1, d2)` step of `_polynomial_multiply` -/
+theorem multiply_step {D N : Nat} (hD : D ≤ 63) (hN : N ≤ D) (σ : Nat → List (List Nat))
+    (hσ : ∀ n, (σ n).flatten.Perm (List.range n)) (P Q R : GPoly K) (hP : WF P N) (hQ : WF Q N) (hR : WF R N)
+    (d1 d2 : Nat) (h12 : d1 + d2 ≤ N) :
+    let R' := if d2 ≥ Q.length ∨ !anyNZ (Q.getD d2 []) then R else
+      let prod := polyMulSched (mkTables D) (P.getD d1 []) d1 (Q.getD d2 []) d2 (σ (P.getD d1 []).length)
+      if prod.length = (R.getD (d1 + d2) []).length then R.set (d1 + d2) (polyAdd (R.getD (d1 + d2) []) prod) else R
+    WF R' N ∧ ∀ r, r ≤ N → toMv (mkTables D) r (R'.getD r []) = toMv (mkTables D) r (R.getD r [])
+      + (if r = d1 + d2 then toMv (mkTables D) d1 (P.getD d1 []) * toMv (mkTables D) d2 (Q.getD d2 []) else 0) := by
+  intro R'
+  have hd2 : ¬ d2 ≥ Q.length := by rw [hQ.1]; omega
+  by_cases hz : anyNZ (Q.getD d2 []) = false
+  · have hR' : R' = R := by simp only [R']; rw [if_pos (Or.inr (by rw [hz]; rfl))]
+    rw [hR']
+    refine ⟨hR, fun r _ => ?_⟩
+    rw [toMv_of_anyNZ_false _ d2 hz, mul_zero]; simp
+  · have hlp := hP.2 d1 (by omega)
+    have hlq := hQ.2 d2 (by omega)
+    have hlr := hR.2 (d1 + d2) h12
+    have hlen := length_polyMulSched (mkTables D) (P.getD d1 []) (Q.getD d2 []) d1 d2 (σ (P.getD d1 []).length)
+    have hR' : R' = R.set (d1 + d2) (polyAdd (R.getD (d1 + d2) [])
+        (polyMulSched (mkTables D) (P.getD d1 []) d1 (Q.getD d2 []) d2 (σ (P.getD d1 []).length))) := by
+      simp only [R']
+      rw [if_neg (by
+        intro h; rcases h with h | h
+        · exact hd2 h
+        · apply hz; revert h; cases anyNZ (Q.getD d2 []) <;> simp), if_pos (by rw [hlen, hlr])]
+    rw [hR']
+    have hi : d1 + d2 < R.length := by rw [hR.1]; omega
+    constructor
+    · constructor
+      · rw [List.length_set]; exact hR.1
+      · intro d hd
+        rw [getD_set_list _ _ _ _ _ hi]
+        split
+        · rename_i h; subst h; rw [length_polyAdd, hlr, hlen, Nat.min_self]
+        · exact hR.2 d hd
+    · intro r hr
+      rw [getD_set_list _ _ _ _ _ hi]
+      by_cases h : r = d1 + d2
+      · subst h
+        rw [if_pos rfl, if_pos rfl, toMv_polyAdd _ _ _ _ (by rw [hlr, hlen]),
+          toMv_polyMulSched hD (by omega) _ _ hlp hlq _ (hσ _)]
+      · rw [if_neg h, if_neg h, add_zero]
+
+end
+
+
+section
+variable {K : Type} [CommSemiring K] [DecidableEq K]
+
+/-- contribution of the block pair `(d1, d2)` to the product -/
+noncomputable def contrib (T : List (List Nat)) (P Q : GPoly K) (d1 d2 : Nat) : MvPolynomial (Fin 6) K :=
+  toMv T d1 (P.getD d1 []) * toMv T d2 (Q.getD d2 [])
+
+theorem multiply_inner {D N : Nat} (hD : D ≤ 63) (hN : N ≤ D) (σ : Nat → List (List Nat))
+    (hσ : ∀ n, (σ n).flatten.Perm (List.range n)) (P Q R : GPoly K) (hP : WF P N) (hQ : WF Q N) (hR : WF R N)
+    (d1 : Nat) (hd1 : d1 ≤ N) : ∀ n, n ≤ N + 1 - d1 →
+    let Rn := (List.range n).foldl (fun R d2 =>
+      if d2 ≥ Q.length ∨ !anyNZ (Q.getD d2 []) then R else
+      let prod := polyMulSched (mkTables D) (P.getD d1 []) d1 (Q.getD d2 []) d2 (σ (P.getD d1 []).length)
+      if prod.length = (R.getD (d1 + d2) []).length then R.set (d1 + d2) (polyAdd (R.getD (d1 + d2) []) prod) else R) R
+    WF Rn N ∧ ∀ r, r ≤ N → toMv (mkTables D) r (Rn.getD r []) = toMv (mkTables D) r (R.getD r [])
+      + (if d1 ≤ r ∧ r - d1 < n then contrib (mkTables D) P Q d1 (r - d1) else 0) := by
+  intro n
+  induction n with
+  | zero => intro _; simp; exact hR
+  | succ n ih =>
+    intro hn
+    have ih' := ih (by omega)
+    simp only at ih' ⊢
+    rw [List.range_succ, List.foldl_append]
+    simp only [List.foldl_cons, List.foldl_nil]
+    have st := multiply_step hD hN σ hσ P Q _ hP hQ ih'.1 d1 n (by omega)
+    simp only at st
+    refine ⟨st.1, fun r hr => ?_⟩
+    rw [st.2 r hr, ih'.2 r hr, add_assoc]
+    congr 1
+    by_cases h : r = d1 + n
+    · subst h
+      rw [if_pos rfl, if_neg (by omega), if_pos (by omega), zero_add]
+      unfold contrib
+      have : d1 + n - d1 = n := by omega
+      rw [this]
+    · rw [if_neg h, add_zero]
+      by_cases h2 : d1 ≤ r ∧ r - d1 < n
+      · rw [if_pos h2, if_pos (by omega)]
+      · rw [if_neg h2, if_neg (by omega)]
+
+theorem multiply_row {D N : Nat} (hD : D ≤ 63) (hN : N ≤ D) (σ : Nat → List (List Nat))
+    (hσ : ∀ n, (σ n).flatten.Perm (List.range n)) (P Q R : GPoly K) (hP : WF P N) (hQ : WF Q N) (hR : WF R N)
+    (d1 : Nat) (hd1 : d1 ≤ N) :
+    WF (multiplyRow (mkTables D) σ P Q N d1 R) N ∧ ∀ r, r ≤ N →
+      toMv (mkTables D) r ((multiplyRow (mkTables D) σ P Q N d1 R).getD r []) = toMv (mkTables D) r (R.getD r [])
+        + (if d1 ≤ r then contrib (mkTables D) P Q d1 (r - d1) else 0) := by
+  unfold multiplyRow
+  have hd : ¬ d1 ≥ P.length := by rw [hP.1]; omega
+  by_cases hz : anyNZ (P.getD d1 []) = false
+  · rw [if_pos (Or.inr (by rw [hz]; rfl))]
+    refine ⟨hR, fun r _ => ?_⟩
+    unfold contrib
+    rw [toMv_of_anyNZ_false _ d1 hz, zero_mul]; simp
+  · rw [if_neg (by
+      intro h; rcases h with h | h
+      · exact hd h
+      · apply hz; revert h; cases anyNZ (P.getD d1 []) <;> simp)]
+    have := multiply_inner hD hN σ hσ P Q R hP hQ hR d1 hd1 (N + 1 - d1) le_rfl
+    simp only at this
+    refine ⟨this.1, fun r hr => ?_⟩
+    rw [this.2 r hr]
+    congr 1
+    by_cases h : d1 ≤ r
+    · rw [if_pos h, if_pos ⟨h, by omega⟩]
+    · rw [if_neg h, if_neg (by omega)]
+
+theorem multiply_outer {D N : Nat} (hD : D ≤ 63) (hN : N ≤ D) (σ : Nat → List (List Nat))
+    (hσ : ∀ n, (σ n).flatten.Perm (List.range n)) (P Q : GPoly K) (hP : WF P N) (hQ : WF Q N) : ∀ n, n ≤ N + 1 →
+    let Rn := (List.range n).foldl (fun R d1 => multiplyRow (mkTables D) σ P Q N d1 R) (polynomialZeroList N)
+    WF Rn N ∧ ∀ r, r ≤ N → toMv (mkTables D) r (Rn.getD r [])
+      = ∑ d1 ∈ Finset.range n, (if d1 ≤ r then contrib (mkTables D) P Q d1 (r - d1) else 0) := by
+  intro n
+  induction n with
+  | zero =>
+    intro _
+    simp only [List.range_zero, List.foldl_nil, Finset.range_zero, Finset.sum_empty]
+    refine ⟨WF_zeroList N, fun r hr => ?_⟩
+    rw [getD_zeroList N r hr, toMv_zeros]
+  | succ n ih =>
+    intro hn
+    have ih' := ih (by omega)
+    simp only at ih' ⊢
+    rw [List.range_succ, List.foldl_append]
+    simp only [List.foldl_cons, List.foldl_nil]
+    have st := multiply_row hD hN σ hσ P Q _ hP hQ ih'.1 n (by omega)
+    refine ⟨st.1, fun r hr => ?_⟩
+    rw [st.2 r hr, ih'.2 r hr, Finset.sum_range_succ]
+
+/-- `_polynomial_multiply`: block `r` of the result is `Σ_{d1+d2=r} P[d1]·Q[d2]`, i.e. the product truncated at `max_deg` -/
+theorem toMv_polynomialMultiply {D N : Nat} (hD : D ≤ 63) (hN : N ≤ D) (σ : Nat → List (List Nat))
+    (hσ : ∀ n, (σ n).flatten.Perm (List.range n)) (P Q : GPoly K) (hP : WF P N) (hQ : WF Q N) :
+    WF (polynomialMultiply (mkTables D) σ P Q N) N ∧ ∀ r, r ≤ N →
+      toMv (mkTables D) r ((polynomialMultiply (mkTables D) σ P Q N).getD r [])
+        = ∑ x ∈ Finset.antidiagonal r, toMv (mkTables D) x.1 (P.getD x.1 []) * toMv (mkTables D) x.2 (Q.getD x.2 []) := by
+  have := multiply_outer hD hN σ hσ P Q hP hQ (N + 1) le_rfl
+  simp only at this
+  unfold polynomialMultiply
+  refine ⟨this.1, fun r hr => ?_⟩
+  rw [this.2 r hr, Finset.Nat.sum_antidiagonal_eq_sum_range_succ (fun a b => toMv (mkTables D) a (P.getD a []) * toMv (mkTables D) b (Q.getD b []))]
+  rw [← Finset.sum_filter]
+  have : (Finset.range (N + 1)).filter (fun d1 => d1 ≤ r) = Finset.range (r + 1) := by
+    ext a; simp only [Finset.mem_filter, Finset.mem_range]; omega
+  rw [this]
+  rfl
+
+end
+
+/-! ### truncated powers: the grading variable -/
+
+section
+variable {R : Type} [CommSemiring R]
+
+/-- truncation of a power series in the grading variable at degree `N` (inclusive) -/
+noncomputable def tr (N : Nat) (φ : PowerSeries R) : PowerSeries R := PowerSeries.mk fun r => if r ≤ N then PowerSeries.coeff r φ else 0
+
+theorem coeff_tr (N r : Nat) (φ : PowerSeries R) : PowerSeries.coeff r (tr N φ) = if r ≤ N then PowerSeries.coeff r φ else 0 := by
+  simp [tr, PowerSeries.coeff_mk]
+
+theorem tr_tr_mul (N : Nat) (a b : PowerSeries R) : tr N (tr N a * b) = tr N (a * b) := by
+  refine PowerSeries.ext (fun r => ?_)
+  rw [coeff_tr, coeff_tr]
+  split
+  · rename_i hr
+    rw [PowerSeries.coeff_mul, PowerSeries.coeff_mul]
+    apply Finset.sum_congr rfl
+    intro x hx
+    have := Finset.mem_antidiagonal.mp hx
+    rw [coeff_tr, if_pos (by omega)]
+  · rfl
+
+theorem tr_idem (N : Nat) (a : PowerSeries R) : tr N (tr N a) = tr N a := by
+  have := tr_tr_mul N a 1
+  simpa using this
+
+theorem tr_mul_tr_pow (N : Nat) (y : PowerSeries R) : ∀ (n : Nat) (x : PowerSeries R), tr N (x * (tr N y) ^ n) = tr N (x * y ^ n)
+  | 0, x => by simp
+  | n + 1, x => by
+    have e1 : x * tr N y ^ (n + 1) = tr N y * (x * tr N y ^ n) := by ring
+    rw [e1, tr_tr_mul]
+    have e2 : y * (x * tr N y ^ n) = (y * x) * tr N y ^ n := by ring
+    rw [e2, tr_mul_tr_pow N y n (y * x)]
+    congr 1; ring
+
+end
+
+section
+variable {K : Type} [CommSemiring K] [DecidableEq K]
+
+/-- the graded list as a power series in a grading variable: coefficient `r` = the polynomial of block `r` -/
+noncomputable def Ser (T : List (List Nat)) (N : Nat) (P : GPoly K) : PowerSeries (MvPolynomial (Fin 6) K) :=
+  PowerSeries.mk fun r => if r ≤ N then toMv T r (P.getD r []) else 0
+
+theorem coeff_Ser (T : List (List Nat)) (N r : Nat) (P : GPoly K) :
+    PowerSeries.coeff r (Ser T N P) = if r ≤ N then toMv T r (P.getD r []) else 0 := by
+  simp [Ser, PowerSeries.coeff_mk]
+
+theorem tr_Ser (T : List (List Nat)) (N : Nat) (P : GPoly K) : tr N (Ser T N P) = Ser T N P := by
+  refine PowerSeries.ext (fun r => ?_)
+  rw [coeff_tr, coeff_Ser]
+  split <;> rfl
+
+theorem Ser_multiply {D N : Nat} (hD : D ≤ 63) (hN : N ≤ D) (σ : Nat → List (List Nat))
+    (hσ : ∀ n, (σ n).flatten.Perm (List.range n)) (P Q : GPoly K) (hP : WF P N) (hQ : WF Q N) :
+    Ser (mkTables D) N (polynomialMultiply (mkTables D) σ P Q N) = tr N (Ser (mkTables D) N P * Ser (mkTables D) N Q) := by
+  refine PowerSeries.ext (fun r => ?_)
+  rw [coeff_tr, coeff_Ser]
+  split
+  · rename_i hr
+    rw [(toMv_polynomialMultiply hD hN σ hσ P Q hP hQ).2 r hr, PowerSeries.coeff_mul]
+    apply Finset.sum_congr rfl
+    intro x hx
+    have h1 := Finset.mem_antidiagonal.mp hx
+    rw [coeff_Ser, coeff_Ser, if_pos (by omega), if_pos (by omega)]
+  · rfl
+
+theorem mono_zero_list : mono [0, 0, 0, 0, 0, 0] = 0 := by
+  ext i; fin_cases i <;> rfl
+
+theorem WF_one (N : Nat) : WF (polynomialOne N : GPoly K) N := by
+  unfold polynomialOne
+  have h0 : ((polynomialZeroList N : GPoly K).getD 0 []).length > 0 := by
+    rw [getD_zeroList N 0 (by omega), length_zeros]; decide
+  simp only [if_pos h0]
+  have hz := WF_zeroList (K := K) N
+  constructor
+  · rw [List.length_set]; exact hz.1
+  · intro d hd
+    rw [getD_set_list _ _ _ _ _ (by rw [hz.1]; omega)]
+    split
+    · rename_i h; subst h; rw [List.length_set]; exact hz.2 0 hd
+    · exact hz.2 d hd
+
+theorem Ser_one {D N : Nat} (hD : D ≤ 63) (hN : N ≤ D) : Ser (mkTables D) N (polynomialOne N : GPoly K) = 1 := by
+  refine PowerSeries.ext (fun r => ?_)
+  rw [coeff_Ser, PowerSeries.coeff_one]
+  unfold polynomialOne
+  have h0 : ((polynomialZeroList N : GPoly K).getD 0 []).length > 0 := by
+    rw [getD_zeroList N 0 (by omega), length_zeros]; decide
+  simp only [if_pos h0]
+  have hz := WF_zeroList (K := K) N
+  by_cases hr : r ≤ N
+  · rw [if_pos hr, getD_set_list _ _ _ _ _ (by rw [hz.1]; omega)]
+    by_cases h : r = 0
+    · subst h
+      rw [if_pos rfl, if_pos rfl, getD_zeroList N 0 (by omega)]
+      have e0 : psi 6 0 = 1 := by decide
+      have e : ((zeros (psi 6 0) : List K).set 0 1) = [1] := by rw [e0]; rfl
+      rw [e]
+      unfold toMv
+      simp only [List.length_singleton, Finset.range_one, Finset.sum_singleton, List.getD_cons_zero]
+      have : decode (mkTables D) 0 0 = [0, 0, 0, 0, 0, 0] := by
+        rw [decode_table hD (by omega) (by decide)]; decide
+      rw [this, mono_zero_list]; rfl
+    · rw [if_neg h, if_neg h, getD_zeroList N r hr, toMv_zeros]
+  · rw [if_neg hr, if_neg (by omega)]
+
+theorem powerLoop_spec {D N : Nat} (hD : D ≤ 63) (hN : N ≤ D) (σ : Nat → List (List Nat))
+    (hσ : ∀ n, (σ n).flatten.Perm (List.range n)) : ∀ (fuel : Nat) (result base : GPoly K) (e : Nat), e < fuel →
+    WF result N → WF base N →
+    WF (powerLoop (mkTables D) σ N fuel result base e) N ∧
+    Ser (mkTables D) N (powerLoop (mkTables D) σ N fuel result base e)
+      = tr N (Ser (mkTables D) N result * (Ser (mkTables D) N base) ^ e)
+  | 0, _, _, _, h, _, _ => by omega
+  | fuel + 1, result, base, e, h, hr, hb => by
+    unfold powerLoop
+    by_cases he : e = 0
+    · subst he
+      rw [if_pos rfl]
+      refine ⟨hr, ?_⟩
+      rw [pow_zero, mul_one, tr_Ser]
+    · rw [if_neg he]
+      simp only
+      have hm := toMv_polynomialMultiply hD hN σ hσ result base hr hb
+      have hbb := toMv_polynomialMultiply hD hN σ hσ base base hb hb
+      have sm := Ser_multiply hD hN σ hσ result base hr hb
+      have sbb := Ser_multiply hD hN σ hσ base base hb hb
+      have hdiv : e / 2 < fuel := by omega
+      have hmod := Nat.div_add_mod e 2
+      by_cases ho : e % 2 = 1
+      · by_cases h1 : e > 1
+        · rw [if_pos ho, if_pos h1]
+          have ih := powerLoop_spec hD hN σ hσ fuel _ _ (e / 2) hdiv hm.1 hbb.1
+          refine ⟨ih.1, ?_⟩
+          rw [ih.2, sm, sbb, tr_tr_mul, tr_mul_tr_pow]
+          congr 1
+          have : e = 2 * (e / 2) + 1 := by omega
+          conv_rhs => rw [this]
+          ring
+        · rw [if_pos ho, if_neg h1]
+          have e1 : e = 1 := by omega
+          subst e1
+          have ih := powerLoop_spec hD hN σ hσ fuel _ _ (1 / 2) hdiv hm.1 hb
+          refine ⟨ih.1, ?_⟩
+          rw [ih.2, sm]
+          simp [tr_idem]
+      · have h1 : e > 1 := by omega
+        rw [if_neg ho, if_pos h1]
+        have ih := powerLoop_spec hD hN σ hσ fuel _ _ (e / 2) hdiv hr hbb.1
+        refine ⟨ih.1, ?_⟩
+        rw [ih.2, sbb, tr_mul_tr_pow]
+        congr 1
+        have : e = 2 * (e / 2) := by omega
+        conv_rhs => rw [this]
+        ring
+
+/-- `_polynomial_power`: binary exponentiation with truncation computes the truncated power -/
+theorem Ser_polynomialPower {D N : Nat} (hD : D ≤ 63) (hN : N ≤ D) (σ : Nat → List (List Nat))
+    (hσ : ∀ n, (σ n).flatten.Perm (List.range n)) (P : GPoly K) (hP : WF P N) (k : Nat) :
+    WF (polynomialPower (mkTables D) σ P k N) N ∧
+    Ser (mkTables D) N (polynomialPower (mkTables D) σ P k N) = tr N ((Ser (mkTables D) N P) ^ k) := by
+  unfold polynomialPower
+  by_cases hk : k = 0
+  · subst hk
+    rw [if_pos rfl, pow_zero, Ser_one hD hN]
+    refine ⟨WF_one N, ?_⟩
+    have := tr_Ser (mkTables D) N (polynomialOne N : GPoly K)
+    rw [Ser_one hD hN] at this
+    exact this.symm
+  · rw [if_neg hk]
+    have := powerLoop_spec hD hN σ hσ (k + 1) (polynomialOne N) P k (by omega) (WF_one N) hP
+    rw [Ser_one hD hN, one_mul] at this
+    exact this
+
+end
+
+/-! ### graded wrappers -/
+
+section
+variable {K : Type} [CommSemiring K] [DecidableEq K]
+
+theorem psi6_pos (d : Nat) : 0 < psi 6 d := by
+  rw [psi_succ 5 d]; exact Nat.choose_pos (by omega)
+
+/-- `_polynomial_evaluate`: the sum of the block values = the value of the whole polynomial -/
+theorem polynomialEvaluate_eq_eval {D N : Nat} (hD : D ≤ 63) (hN : N ≤ D) (P : GPoly K) (hP : WF P N) (pt : List K)
+    (hpt : pt.length = 6) :
+    polynomialEvaluate (mkTables D) P pt
+      = eval (fun i : Fin 6 => pt.getD i.val 0) (∑ d ∈ Finset.range (N + 1), toMv (mkTables D) d (P.getD d [])) := by
+  unfold polynomialEvaluate
+  rw [foldl_range_eq_sum _ (fun d => eval (fun i : Fin 6 => pt.getD i.val 0) (toMv (mkTables D) d (P.getD d []))) P.length
+    (fun s d hd => by
+      have hd' : d ≤ N := by rw [hP.1] at hd; omega
+      have hl := hP.2 d hd'
+      simp only
+      rw [if_pos (by rw [hl]; exact psi6_pos d), polyEvaluate_eq_eval hD (by omega) _ hl pt hpt]) 0, zero_add, hP.1, map_sum]
+
+/-- one degree of `_polynomial_differentiate` -/
+theorem differentiate_step {D N : Nat} (hD : D ≤ 63) (hN : N ≤ D) (σ : Nat → List (List Nat))
+    (hσ : ∀ n, (σ n).flatten.Perm (List.range n)) (P : GPoly K) (hP : WF P N) (v : Fin 6) (R : GPoly K) (hR : WF R (N - 1))
+    (n : Nat) (hn : n + 1 ≤ N) :
+    let R' := (let dorig := n + 1
+      if n ≤ N - 1 ∧ dorig < P.length ∧ anyNZ (P.getD dorig []) then
+        let t := polyDiffSched (mkTables D) (P.getD dorig []) v.val dorig (σ (P.getD dorig []).length)
+        if n < R.length ∧ (R.getD n []).length = t.length then R.set n t else R
+      else R)
+    WF R' (N - 1) ∧ ∀ r, r ≤ N - 1 → toMv (mkTables D) r (R'.getD r [])
+      = if r = n ∧ anyNZ (P.getD (n + 1) []) = true then pderiv v (toMv (mkTables D) (n + 1) (P.getD (n + 1) []))
+        else toMv (mkTables D) r (R.getD r []) := by
+  intro R'
+  have hl := hP.2 (n + 1) (by omega)
+  by_cases hz : anyNZ (P.getD (n + 1) []) = true
+  · have hlt := length_polyDiffSched (mkTables D) (P.getD (n + 1) []) v.val (n + 1) (σ (P.getD (n + 1) []).length)
+    have hn1 : n + 1 - 1 = n := by omega
+    rw [hn1] at hlt
+    have hR' : R' = R.set n (polyDiffSched (mkTables D) (P.getD (n + 1) []) v.val (n + 1) (σ (P.getD (n + 1) []).length)) := by
+      simp only [R']
+      rw [if_pos ⟨by omega, by rw [hP.1]; omega, hz⟩, if_pos ⟨by rw [hR.1]; omega, by rw [hR.2 n (by omega), hlt]⟩]
+    rw [hR']
+    have hi : n < R.length := by rw [hR.1]; omega
+    constructor
+    · constructor
+      · rw [List.length_set]; exact hR.1
+      · intro d hd
+        rw [getD_set_list _ _ _ _ _ hi]
+        split
+        · rename_i h; subst h; exact hlt
+        · exact hR.2 d hd
+    · intro r hr
+      rw [getD_set_list _ _ _ _ _ hi]
+      by_cases h : r = n
+      · subst h
+        rw [if_pos rfl, if_pos ⟨rfl, hz⟩]
+        have := toMv_polyDiffSched hD (by omega : r + 1 ≤ D) _ hl v _ (hσ _)
+        rw [hn1] at this
+        exact this
+      · rw [if_neg h, if_neg (by intro hh; exact h hh.1)]
+  · have hR' : R' = R := by
+      simp only [R']
+      rw [if_neg (by intro h; exact hz h.2.2)]
+    rw [hR']
+    refine ⟨hR, fun r _ => ?_⟩
+    rw [if_neg (by intro hh; exact hz hh.2)]
+
+/-- `_polynomial_differentiate`, processed degrees `0..n-1` -/
+theorem differentiate_fold {D N : Nat} (hD : D ≤ 63) (hN : N ≤ D) (σ : Nat → List (List Nat))
+    (hσ : ∀ n, (σ n).flatten.Perm (List.range n)) (P : GPoly K) (hP : WF P N) (v : Fin 6) : ∀ n, n ≤ N →
+    let Rn := (List.range n).foldl (fun R dres =>
+      let dorig := dres + 1
+      if dres ≤ N - 1 ∧ dorig < P.length ∧ anyNZ (P.getD dorig []) then
+        let t := polyDiffSched (mkTables D) (P.getD dorig []) v.val dorig (σ (P.getD dorig []).length)
+        if dres < R.length ∧ (R.getD dres []).length = t.length then R.set dres t else R
+      else R) (polynomialZeroList (N - 1))
+    WF Rn (N - 1) ∧ ∀ r, r ≤ N - 1 → toMv (mkTables D) r (Rn.getD r [])
+      = if r < n then pderiv v (toMv (mkTables D) (r + 1) (P.getD (r + 1) [])) else 0 := by
+  intro n
+  induction n with
+  | zero =>
+    intro _
+    simp only [List.range_zero, List.foldl_nil]
+    refine ⟨WF_zeroList _, fun r hr => ?_⟩
+    rw [getD_zeroList _ r hr, toMv_zeros]; simp
+  | succ n ih =>
+    intro hn
+    have ih' := ih (by omega)
+    simp only at ih' ⊢
+    rw [List.range_succ, List.foldl_append]
+    simp only [List.foldl_cons, List.foldl_nil]
+    have st := differentiate_step hD hN σ hσ P hP v _ ih'.1 n hn
+    simp only at st
+    refine ⟨st.1, fun r hr => ?_⟩
+    rw [st.2 r hr, ih'.2 r hr]
+    by_cases h : r = n
+    · subst h
+      by_cases hz : anyNZ (P.getD (r + 1) []) = true
+      · rw [if_pos ⟨rfl, hz⟩, if_pos (by omega)]
+      · rw [if_neg (by intro hh; exact hz hh.2), if_neg (by omega), if_pos (by omega)]
+        have : anyNZ (P.getD (r + 1) []) = false := by revert hz; cases anyNZ (P.getD (r + 1) []) <;> simp
+        rw [toMv_of_anyNZ_false _ _ this, map_zero]
+    · rw [if_neg (by intro hh; exact h hh.1)]
+      by_cases h2 : r < n
+      · rw [if_pos h2, if_pos (by omega)]
+      · rw [if_neg h2, if_neg (by omega)]
+
+/-- `_polynomial_differentiate`: block `r` of the result is `∂/∂x_v` of block `r+1` of the input -/
+theorem toMv_polynomialDifferentiate {D N : Nat} (hD : D ≤ 63) (hN : N ≤ D) (σ : Nat → List (List Nat))
+    (hσ : ∀ n, (σ n).flatten.Perm (List.range n)) (P : GPoly K) (hP : WF P N) (v : Fin 6) :
+    WF (polynomialDifferentiate (mkTables D) σ P v.val N) (N - 1) ∧ ∀ r, r + 1 ≤ N →
+      toMv (mkTables D) r ((polynomialDifferentiate (mkTables D) σ P v.val N).getD r [])
+        = pderiv v (toMv (mkTables D) (r + 1) (P.getD (r + 1) [])) := by
+  have := differentiate_fold hD hN σ hσ P hP v N le_rfl
+  simp only at this
+  unfold polynomialDifferentiate
+  simp only
+  refine ⟨this.1, fun r hr => ?_⟩
+  rw [this.2 r (by omega), if_pos (by omega)]
+
+end
 
 end HitenModel.C06
